@@ -1,10 +1,10 @@
 CONSTANTS
-  N = 3
+  N = 2
   Hows = {"okclient", "okupstream", "refused", "timeout"}
-  MaxUpd = 0
-  MinUpd = 0
-  Kinds = {}
-  Tos = {}
+  MaxUpd = 1
+  MinUpd = 1
+  Kinds = {"primary", "andhosts"}
+  Tos = {"same", "up", "down", "off", "on"}
 INIT Init
 NEXT Next
 INVARIANT Emit
